@@ -262,4 +262,19 @@ def scanning : Hand → Option (Obj × List Obj)
 def quiescent (s : State) : Prop :=
   s.rootsLeft = [] ∧ s.inj = [] ∧ ∀ m ∈ s.ws, m.loc = [] ∧ m.deq = [] ∧ m.hand = .idle
 
+/-- occurrences of `z` in what one worker holds: local segment, deque, hand -/
+def wcount (z : Obj) (m : WState) : Nat := m.loc.count z + m.deq.count z + (held m.hand).count z
+
+def wsCount (ws : List WState) (z : Obj) : Nat := (ws.map (wcount z)).sum
+
+/-- number of pool slots holding `z`: occurrences in the injector and in every worker's local segment,
+deque and hand -/
+def poolCount (s : State) (z : Obj) : Nat := s.inj.count z + wsCount s.ws z
+
+/-- what marking has to find: reachable from a root along reference fields without passing through a
+pre-marked (read-only space) object -/
+inductive Reachable (h : Heap) : Obj → Prop
+  | root {r : Obj} : r ∈ h.roots → r ∉ h.pre → Reachable h r
+  | succ {x y : Obj} : Reachable h x → y ∈ h.succ x → y ∉ h.pre → Reachable h y
+
 end Dora.Mark
